@@ -141,6 +141,8 @@ pub struct Interp<R: Reg> {
     pub muted: HashSet<&'static str>,
     pub foreign: Vec<Fail>,
     pub mute: bool,
+    /// run the oracles after every step (off while only *building* a world)
+    pub checks: bool,
     /// step at which a *structural* observer (audit / resolve) of another property first fired;
     /// the case is cut a few steps later because broken bookkeeping makes a crash likely
     structural_at: Option<usize>,
@@ -192,6 +194,7 @@ impl<R: Reg> Interp<R> {
             muted: HashSet::new(),
             foreign: Vec::new(),
             mute: true,
+            checks: true,
             structural_at: None,
             known_prev: HashSet::new(),
         };
@@ -213,6 +216,10 @@ impl<R: Reg> Interp<R> {
             model.res = res;
             self.slots[w] = Some(Slot { real, model, shadow: None, deserialized: false });
         }
+    }
+
+    pub fn world_mut(&mut self, w: usize) -> &mut Slot<R> {
+        self.slot(w as u8)
     }
 
     fn slot(&mut self, w: u8) -> &mut Slot<R> {
@@ -256,6 +263,9 @@ impl<R: Reg> Interp<R> {
         // Values constructed during the step (harness-made or library-made).
         self.made_this_step.extend(ledger::take_made());
         r?;
+        if !self.checks {
+            return Ok(());
+        }
         loop {
             match self.check_all() {
                 Err(f) if self.mute && !self.owns(&f) && OBSERVERS.contains(&f.oracle) && !self.muted.contains(f.oracle) => {
